@@ -30,24 +30,32 @@ def shard_sources():
     return sorted(glob.glob(os.path.join(HDIR, "tu_*.cpp")))
 
 
-def hdr_hash(d=HDIR):
-    return vcheck.file_hash(sorted(glob.glob(os.path.join(d, "*.h"))))
+def hdr_hash(dirs=(HDIR,)):
+    fs = []
+    for d in dirs:
+        fs += sorted(glob.glob(os.path.join(d, "*.h")))
+    return vcheck.file_hash(fs)
 
 
-def build_shards(ctx, srcs, incdir=HDIR, tag="h"):
+def build_shards(ctx, srcs, incdirs=(HDIR,), tag="h"):
     """compile all shards in parallel (each is one g++ process); returns {shard name: exe}"""
     vcheck.libcds(True, "-O1")          # build the static library once, before the parallel compiles need it
-    extra = ("-I" + incdir, "-DC14_HDR=" + hdr_hash(incdir)) + EXTRA_LINK
+    extra = tuple("-I" + d for d in incdirs) + ("-DC14_HDR=" + hdr_hash(incdirs),) + EXTRA_LINK
     out = {}
     errs = []
 
     def one(src):
         name = os.path.basename(src)[:-4]
         exe = os.path.join(ctx.work, tag, name)
-        try:
-            return name, vcheck.cxx_build(src, exe, hook=True, extra=extra, timeout=1500), None
-        except vcheck.BuildError as e:
-            return name, None, str(e)
+        err = None
+        for attempt in range(3):
+            try:
+                return name, vcheck.cxx_build(src, exe, hook=True, extra=extra, timeout=1500), None
+            except vcheck.BuildError as e:
+                err = str(e)
+                if "libcds.a" not in err:       # the shared static library was removed under us (another run cleaned _work/libcds)
+                    break
+        return name, None, err
 
     with ThreadPoolExecutor(max_workers=max(2, vcheck.NCPU)) as ex:
         for name, exe, err in ex.map(one, srcs):
